@@ -619,7 +619,8 @@ def enumerate_tuples(r, n_ops, shapes, full_kinds, stats, sample=None):
     if sample is not None and sample < len(plan):
         plan = r.sample(plan, sample)
     stats.update({"operator_tuple_x_shape_combinations": typable + untypable, "type_correct": typable, "without_any_typing": untypable,
-                  "typed_shapes_total": total, "typed_shapes": len(plan), "undefined_division_redrawn": 0, "dropped": 0, "trees": 0})
+                  "typed_shapes_total": total, "typed_shapes": len(plan), "typed_shapes_covered": 0,
+                  "undefined_division_redrawn": 0, "dropped": 0, "trees": 0})
     for ops, sname, ty in plan:
         lts = leaves_of(ty, [])
         jobs = []
@@ -634,11 +635,12 @@ def enumerate_tuples(r, n_ops, shapes, full_kinds, stats, sample=None):
                     jobs.append((pos, kind, None))
         else:
             jobs.append((None, None, None))
+        produced = 0
         for pos, kind, fixed in jobs:
             tree = None
-            for attempt in range(12):
+            for attempt in range(40):
                 kinds = [r.choice(KINDS if t != "string" else KINDS[:-1]) for t in lts]
-                if attempt >= 6:
+                if attempt >= 20:
                     # divisors are the usual reason: make the other leaves plain
                     kinds = [r.choice(["lit", "var"]) for t in lts]
                 if pos is not None:
@@ -654,6 +656,9 @@ def enumerate_tuples(r, n_ops, shapes, full_kinds, stats, sample=None):
                 stats["dropped"] += 1
                 continue
             stats["trees"] += 1
+            produced += 1
+            if produced == 1:
+                stats["typed_shapes_covered"] += 1
             yield ops, sname, tree
 
 
@@ -1171,17 +1176,20 @@ def run(ctx):
         if not ctx.violations:
             ctx.require(agree >= (S["normal"] + len(deep)) * 0.9, "too few trees reached a verdict: %s" % hist)
             ctx.require(hist.get("agree(deep)", 0) >= len(deep) * 0.9, "deep expressions did not reach a verdict: %s" % hist)
-        tri = dict(enum_stats["triples"], operator_triples=len(ALL_OPS) ** 3, exhaustive=not quick,
+        tri = dict(enum_stats["triples"], operator_triples=len(ALL_OPS) ** 3,
+                   exhaustive=(not quick) and enum_stats["triples"]["typed_shapes_covered"] == enum_stats["triples"]["typed_shapes_total"],
                    shapes=list(SHAPES3) if quick else ["left-comb", "right-nested"])
         if not quick:
-            tri["mixed_shapes"] = dict(enum_stats["triples_mixed_shapes"], shapes=["balanced", "left-of-right", "right-of-left"], exhaustive=True)
+            ms = enum_stats["triples_mixed_shapes"]
+            tri["mixed_shapes"] = dict(ms, shapes=["balanced", "left-of-right", "right-of-left"], exhaustive=ms["typed_shapes_covered"] == ms["typed_shapes_total"])
         cov = {
             "evaluations": ntrees,
             "distinct_nontrivial": len(S["shapes"]),
             "rule": "distinct (operator tuple in preorder incl. operators inside call arguments / under unary operators, tree shape, operand-kind tuple) "
                     "among trees whose two spellings compiled to identical CODE / function table / string pool and printed the reference value",
             "trees": dict(S["by_group"], deep=len(deep), bound_variants_of_known_finding_trees=S["bound"]),
-            "pairs": dict(enum_stats["pairs"], operator_pairs=len(ALL_OPS) ** 2, shapes=["left-comb", "right-nested"], exhaustive=True,
+            "pairs": dict(enum_stats["pairs"], operator_pairs=len(ALL_OPS) ** 2, shapes=["left-comb", "right-nested"],
+                          exhaustive=enum_stats["pairs"]["typed_shapes_covered"] == enum_stats["pairs"]["typed_shapes_total"],
                           operand_kinds="one-factor: every leaf position x every operand kind, the other leaves random" if quick else
                                         "cartesian: every combination of operand kinds over the three leaves"),
             "triples": tri,
